@@ -558,6 +558,17 @@ func genSpecs(t *rapid.T, c *Case) {
 				spec.ExcludePaths = protogen.SortedKeys(exc)
 			default: // proto file ref
 				spec.ProtoFile = paths[rapid.IntRange(0, len(paths)-1).Draw(t, "protofile")]
+				// prefer a file without package when there are several (its "package" has no other members)
+				var bare []string
+				for _, p := range paths {
+					if c.Packages[p] == "" {
+						bare = append(bare, p)
+					}
+				}
+				if len(bare) >= 2 && rapid.Bool().Draw(t, "protofile-bare") {
+					spec.ProtoFile = bare[rapid.IntRange(0, len(bare)-1).Draw(t, "protofile-bare-idx")]
+					evid.R().Class("spec:proto-file-ref-without-package")
+				}
 				spec.IncludePkg = rapid.Bool().Draw(t, "incpkg")
 			}
 		}
@@ -661,6 +672,11 @@ func TestImage(t *testing.T) {
 		cfg.MaxModules, cfg.MaxFiles, cfg.MaxPackages = 5, 12, 6
 	}
 	r.Check(t, r.Scale(1500, 16000), 1, func(t *rapid.T) {
+		cfg := cfg
+		// a fifth of the workspaces: several packages per directory and many files without a package statement
+		if rapid.IntRange(0, 4).Draw(t, "shareddirs") == 0 {
+			cfg.SharedDirs, cfg.NoPackagePct = true, 30
+		}
 		c, _ := genCase(t, cfg)
 		runSuccess(ctx, t, r, c)
 	})
